@@ -6,6 +6,37 @@ NOTE_COMMON = ("Trusted: Coq 8.16.1 kernel + vm_compute; no axioms (Print Assump
                "both guarded by the differential correspondence; Python oracles and harness.")
 
 CHECKS = {
+ "C03": dict(
+   engine="coq-codec",
+   technique="Coq proof: attribute<->AVP generator/assigner model with shape/round-trip theorems; exhaustive class-table well-formedness by vm_compute over regenerated avp_def tables; differential correspondence on every definition",
+   text=("Model/Defs.v mirrors generate_avps_from_defs / assign_attr_from_defs / UndefinedMessage attribute naming over the avp_def tables of all "
+         "typed message classes and grouped containers, re-introspected each run. Link/LinkDefs.v: every class well-formed (each definition has a "
+         "dictionary entry, grouped iff container, no duplicate attribute or key, no class-object defaults) modulo the recorded known finding "
+         "(with a _refuted lemma). Proofs/DefsP.v: shape of the generated AVP list, round trip and encode-decode-encode for shaped objects. "
+         "Correspondence: every class x {none, each single attribute, random subsets, all} encoded/decoded/re-encoded, compared with a "
+         "one-AVP-per-attribute reference and with the Coq model; commands without a typed class against undef_attrs."),
+   design_ref="DESIGN.md section 6 C03",
+   note=NOTE_COMMON),
+ "C04": dict(
+   engine="coq-codec",
+   technique="Coq proof: totality, progress, no-over-read and linear step-count theorems for all byte strings; translated exception-handler table of every typed getter closed by vm_compute; systematic hostile-input correspondence",
+   text=("Props/C04.v: every decoder returns or raises ConversionError/AvpDecodeError for ALL inputs (fuel never runs out), each AVP consumes >= 8 "
+         "bytes + payload, remainders are suffixes, instrumented step counts are <= |input| (flat) and depth*|payload| (grouped). "
+         "Link/LinkGetters.v: the (primitive, caught exceptions) table translated from every typed value getter lets nothing escape. PARTIAL for "
+         "'never raises any other exception' outside the translated getters: observed on prefixes, bit flips, every length field x boundary "
+         "values, every type x payload length 0..20, random bytes, nesting 16 (6.4k quick), not proved."),
+   design_ref="DESIGN.md section 6 C04",
+   note=NOTE_COMMON + " Stray CPython exceptions in code that is not translated can only be observed."),
+ "C05": dict(
+   engine="coq-node",
+   technique="Coq proof: chunking-invariance by induction over reads, progress for every buffer, trichotomy; refutation witnesses for the pre-repair loop; correspondence on the real work_read_queue over exhaustive 1-/2-cuts",
+   text=("Model/Framing.v transcribes work_read_queue's reassembly loop; Proofs/FramingP.v proves for all frame lists and ALL ways of cutting the "
+         "stream that exactly the decodable frames are delivered in order, once, and that no buffer whatever makes the loop spin; the loop as it was "
+         "before the repair is refuted by witnesses. Correspondence: the real PeerConnection.work_read_queue is driven with every 1-cut (and 2-cut "
+         "for short streams), byte-at-a-time, random cuts, corrupted length fields at every position; delivered sequence, close, leftover buffer and "
+         "spin compared with the model (5.6k pairs quick)."),
+   design_ref="DESIGN.md section 6 C05",
+   note=NOTE_COMMON + " The message handler is assumed not to raise (C14)."),
  "C01": dict(
    engine="coq-codec",
    technique="Coq proof: RFC 6733 layout and round-trip theorems over a byte-level model (unbounded payloads), exhaustive dictionary table obligations by vm_compute; differential correspondence on every dictionary entry",
